@@ -40,6 +40,9 @@ pub async fn run_swarm_worker(
     // Periodically clean torrents
     TimerActionRepeat::repeat(enclose!((config, torrents, access_list) move || {
         enclose!((config, torrents, access_list) move || async move {
+            #[cfg(feature = "verif-hooks")]
+            let _ = aquatic_common::verif_hooks::fault_point("swarm-clean");
+
             torrents.borrow_mut().clean(&config, &access_list, server_start_instant);
 
             Some(Duration::from_secs(config.cleaning.torrent_cleaning_interval))
@@ -107,6 +110,11 @@ async fn handle_request_stream<S>(
     let mut rng: SmallRng = make_rng();
 
     while let Some(channel_request) = stream.next().await {
+        #[cfg(feature = "verif-hooks")]
+        if aquatic_common::verif_hooks::fault_point("swarm") {
+            return;
+        }
+
         match channel_request {
             ChannelRequest::Announce {
                 request,
